@@ -297,8 +297,6 @@ def snapshot(conn, observer):
         "t2": _q(oc, "select * from db1.s1.t2 order by 1"),
         "side_tables": _q(oc, "select * from db1.information_schema._fs_tables_ext order by 1, 2, 3"),
         "side_columns": _q(oc, "select * from db1.information_schema._fs_columns_ext order by 1, 2, 3, 4"),
-        "comments": _q(oc, "select table_name, comment from db1.information_schema.tables where table_schema = 'S1' order by 1"),
-        "lengths": _q(oc, "select table_name, column_name, character_maximum_length from db1.information_schema.columns where table_schema = 'S1' and table_name = 'TV' order by 1, 2"),
     }
     return snap
 
